@@ -34,7 +34,13 @@ def one(item):
     pid, patch, name = item
     wt = tempfile.mkdtemp(prefix="vf-mut-")
     os.rmdir(wt)
-    subprocess.check_call(["git", "-C", "/repo", "worktree", "add", "-q", "--detach", wt, "HEAD"])
+    for attempt in range(6):      # concurrent `worktree add/remove` of the other jobs can collide for a moment
+        r0 = subprocess.run(["git", "-C", "/repo", "worktree", "add", "-q", "--detach", wt, "HEAD"], capture_output=True, text=True)
+        if r0.returncode == 0:
+            break
+        time.sleep(0.5 + attempt)
+    else:
+        return (pid, name, "WORKTREE-FAILED", 0, r0.stderr.strip()[:200])
     try:
         r = subprocess.run(["git", "-C", wt, "apply", patch], capture_output=True, text=True)
         if r.returncode != 0:
